@@ -51,7 +51,9 @@ def build(cls, variant):
     y = QConv2D(3, (2, 2), kernel_quantizer=wq(variant, 4), bias_quantizer=BQ_, activation=AQ)(i)
   elif cls == "QDepthwiseConv2D":
     i = L.Input((5, 5, 2))
-    y = QDepthwiseConv2D((2, 2), depthwise_quantizer=wq(variant, 4), bias_quantizer=BQ_)(i)
+    # (two variants: no bias, but a bias quantizer is configured all the same - it has to survive the round trips)
+    y = QDepthwiseConv2D((2, 2), depthwise_quantizer=wq(variant, 4), bias_quantizer=BQ_,
+                         use_bias=variant not in ("po2", "ternary_auto"))(i)
   elif cls == "QSeparableConv1D":
     i = L.Input((6, 2))
     y = QSeparableConv1D(3, 3, depthwise_quantizer=wq(variant, 4), pointwise_quantizer=wq("fixed", 4), bias_quantizer=BQ_)(i)
@@ -99,10 +101,12 @@ def build(cls, variant):
     y = QBidirectional(QLSTM(2, kernel_quantizer=wq(variant, 2), recurrent_quantizer=wq("fixed", 2), bias_quantizer=BQ_))(i)
   elif cls == "QConv2DBatchnorm":
     i = L.Input((5, 5, 2))
-    y = QConv2DBatchnorm(3, (2, 2), kernel_quantizer=wq(variant, 4), bias_quantizer=BQ_)(i)
+    # (without a bias of its own the folded bias (0 - mean) * gamma / sqrt(var + eps) + beta is still quantized)
+    y = QConv2DBatchnorm(3, (2, 2), kernel_quantizer=wq(variant, 4), bias_quantizer=BQ_, use_bias=variant not in ("po2", "auto_axis"))(i)
   elif cls == "QDepthwiseConv2DBatchnorm":
     i = L.Input((5, 5, 2))
-    y = QDepthwiseConv2DBatchnorm((2, 2), depthwise_quantizer=wq(variant, 4), bias_quantizer=BQ_)(i)
+    y = QDepthwiseConv2DBatchnorm((2, 2), depthwise_quantizer=wq(variant, 4), bias_quantizer=BQ_,
+                                  use_bias=variant not in ("po2", "auto_axis"))(i)
   elif cls == "QScaleShift":
     i = L.Input((5,))
     y = QScaleShift(weight_quantizer=wq(variant if variant in ("fixed", "po2") else "fixed", 1), bias_quantizer=BQ_)(i)
